@@ -67,6 +67,8 @@ def bounds_menu(n):
         ("scalar", 0.125, 2.0),
         ("default", None, None),
         ("lb-mixed", mixed, mixed + 1.5 - k / 8.0),
+        # unbounded sources with lower bounds on both sides of 1 (the stand-in box of the cone must start at lb)
+        ("unbounded-lb", np.where(k % 2 == 0, 1.25 + k / 4.0, 0.5), None),
     ]
 
 
